@@ -8,7 +8,7 @@ import tempfile
 
 from hypothesis import strategies as st
 
-from vlib.core import Outcome, Sub, HarnessError, b2j, j2b
+from vlib.core import poison, Outcome, Sub, HarnessError, b2j, j2b
 
 from boltons import strutils
 
@@ -259,6 +259,8 @@ def strat_int(tier):
             'start': draw(st.one_of(st.none(), st.integers(-5, 60), st.integers(0, 3100))),
             'end': draw(st.one_of(st.none(), st.integers(-5, 60), st.integers(0, 3200))),
             'as_set': draw(st.booleans()),
+            # process history: an earlier call with invalid input that raised (and was caught) must not influence this one
+            'prior_bad': draw(st.sampled_from([None, None, None, 'str_members', 'float_member', 'none_member', 'bad_text'])),
         }
     return case()
 
@@ -273,6 +275,14 @@ def run_int(case):
     delim, rd, ds = case['delim'], case['range_delim'], bool(case['delim_space'])
     arg = set(ints) if case.get('as_set') else list(ints)
     exp_sorted = sorted(set(ints))
+    prior = case.get('prior_bad')
+    if prior:
+        bad = {'str_members': ['3', '4', '7'], 'float_member': [3, 4.0], 'none_member': [1, 2, None, 9]}.get(prior)
+        if bad is not None:
+            _call(strutils.format_int_list, bad)
+        else:
+            _call(strutils.parse_int_list, '1-2-x,5,,oops')
+        out.label('after_failed_call')
     for d, r_, s_ in ((',', '-', False), (delim, rd, ds)):
         kw = {} if (d, r_, s_) == (',', '-', False) else {'delim': d, 'range_delim': r_, 'delim_space': s_}
         pk = {} if not kw else {'delim': d, 'range_delim': r_}
@@ -286,6 +296,11 @@ def run_int(case):
         p = _call(strutils.parse_int_list, text, **pk)
         if p != ('ok', exp_sorted):
             return out.fail('c14.int.round-trip', 'parse_int_list(%r, %r) -> %r, expected %r' % (text, pk, p, exp_sorted))
+        poison(p[1])        # the list belongs to the caller; parsing the same text again must not be affected
+        p2 = _call(strutils.parse_int_list, text, **pk)
+        if p2 != ('ok', exp_sorted):
+            return out.fail('c14.int.round-trip.result-aliased', 'parse_int_list(%r, %r) a second time, after the caller changed the first result -> %r, expected %r' % (
+                text, pk, p2, exp_sorted))
         rr = _call(strutils.int_ranges_from_int_list, text, **pk)
         if rr != ('ok', tuple(ref_runs(ints))):
             return out.fail('c14.int.ranges', 'int_ranges_from_int_list(%r, %r) -> %r, expected %r' % (text, pk, rr, tuple(ref_runs(ints))))
